@@ -22,11 +22,11 @@ func c08StubReadPrimary(pi *partIter, mr *primaryBlockMetadata) error {
 // blocks whose series is wanted and whose time range intersects the window - each once, in
 // (series, time) order - i.e. the series/primary-block binary searches and the time pruning
 // never skip a matching block and never yield another.
-// bound: 1..3 blocks (thorough 1..5) over series {1,2,3} in writing order (series non-decreasing, per series disjoint increasing time ranges), primary index blocks cut after any block with the range metadata the writer records, wanted series = any subset of {1,2,3} (thorough {1,2,3,4}), arbitrary window
+// bound: 1..3 blocks (thorough 1..4) over series {1,2,3} in writing order (series non-decreasing, per series disjoint increasing time ranges), primary index blocks cut after any block with the range metadata the writer records, wanted series = any subset of {1,2,3} (thorough {1,2,3,4}), arbitrary window
 func VerifH_C08_PartIteratorYieldsExactlyTheMatchingBlocks() {
 	maxN := 3
 	if zzverif.Thorough() {
-		maxN = 5
+		maxN = 4
 	}
 	n := 1 + zzverif.Choice("blocks", maxN)
 	var blocks []blockMetadata
